@@ -410,7 +410,7 @@ func histProfiles(seed int64, K int) []profSel {
 	keysets := gamma.KeySets
 	n := 1
 	if behav.Thorough() {
-		n = 4
+		n = 2
 	}
 	out := []profSel{{inner: "edge", keyset: "low"}}
 	for i := 0; i < n; i++ {
@@ -481,8 +481,8 @@ func runHistTest(t *testing.T, mode string) {
 	behav.Parallel(total, func(i int) {
 		bi, pi := i/len(profs), i%len(profs)
 		ps := profs[pi]
-		if !behav.Thorough() && pi > 0 && os.Getenv("VERIF_PROFILES") == "" {
-			ps = rotProf(bi, seed) // quick tier: the second profile rotates over all shapes and key placements
+		if pi > 0 && os.Getenv("VERIF_PROFILES") == "" {
+			ps = rotProf(bi*3+pi, seed) // every profile but the first rotates over all shapes and key placements
 		}
 		c := &histCase{Beh: behs[bi], Inner: ps.inner, KeySet: ps.keyset, K: K, M: M, Seed: seed, Mode: mode,
 			Style: EncStyles[(bi+pi+int(seed))%len(EncStyles)]}
